@@ -8,6 +8,13 @@
 //!        nterm=<k> termT=<0|1> terms=<hex,..|-> nodes=<lvl:c1:c2[:c3],..|-> rootids=<i,..|->      -> <ok|err> <hex file>
 //! import kind=<k> cmpl=<not|id> nvars=<n> order=<l2v|-> file=<hex>                   -> ok <hdr> | <tree>.. / err:* / panic:* / reject:*
 //! ```
+//! `fn` specs: `tt=<hex>` (truth table), `vals=..` (MTBDD), `tv=..` (TDD), `ladder=<phase>` (one node per
+//! level over all variables, see `ladder_shape`). Two more keys on `export` lines are ignored by
+//! the model: `big=1` (big / deep diagram: round-trip oracles that do not unfold it) and
+//! `cov=1|2` (self-check of what the binary exports of the case cover of the escape / 7-bit integer
+//! layer, signature escape-coverage-incomplete). Every binary BCDD export is also read by the
+//! harness's own decoder and compared with the node list (binary-decode-mismatch).
+//!
 //! Oracle-only operations (stream `dddmp_fuzz`, no model): `truncall ...`, `fuzz ...` (see `step`).
 //!
 //! Oracle-only suite `gen --suite oom` (stream `dddmp_oom`, no model): `export` lines (reference
@@ -314,6 +321,104 @@ where
     }
 }
 
+/// `e` is the node number `|id|` of the structured view (complemented iff `id < 0`), recursively;
+/// `fwd`: node -> number, `used`: numbers seen (both directions must be functions)
+fn sview_walk<M: Manager>(
+    m: &M,
+    e: &M::Edge,
+    id: i64,
+    sv: &SView,
+    fwd: &mut BTreeMap<oxidd::NodeID, usize>,
+    used: &mut BTreeSet<usize>,
+) -> Result<(), String>
+where
+    M::InnerNode: HasLevel,
+    M::Terminal: AsciiDisplay,
+{
+    let k = id.unsigned_abs() as usize;
+    if (e.tag() != Default::default()) != (id < 0) {
+        return Err(format!("complement mark of an edge to node {k}"));
+    }
+    if k == 0 || k > sv.terms.len() + sv.nodes.len() {
+        return Err(format!("node number {k} out of range"));
+    }
+    if let Some(&k2) = fwd.get(&e.node_id()) {
+        return if k2 == k { Ok(()) } else { Err(format!("one node is listed as {k2} and as {k}")) };
+    }
+    if !used.insert(k) {
+        return Err(format!("two nodes are listed as {k}"));
+    }
+    fwd.insert(e.node_id(), k);
+    match m.get_node(e) {
+        Node::Terminal(t) => {
+            use std::borrow::Borrow;
+            let s = Asc::<M::Terminal>(t.borrow()).to_string();
+            if sv.terms.get(k - 1) != Some(&s) {
+                return Err(format!("node {k} is the terminal {s}"));
+            }
+        }
+        Node::Inner(n) => {
+            let Some((lvl, ch)) = k.checked_sub(sv.terms.len() + 1).and_then(|i| sv.nodes.get(i)) else {
+                return Err(format!("node {k} is an inner node, listed as a terminal"));
+            };
+            if *lvl != n.level() || ch.len() != n.children().len() {
+                return Err(format!("node {k}: level {} / {} children, listed with level {lvl} / {}", n.level(), n.children().len(), ch.len()));
+            }
+            for (c, &cid) in n.children().zip(ch) {
+                sview_walk(m, &c, cid, sv, fwd, used)?;
+            }
+        }
+    }
+    Ok(())
+}
+
+/// simultaneous walk of two DAGs (possibly in two managers)
+fn iso_walk<MA: Manager, MB: Manager>(
+    ma: &MA,
+    ea: &MA::Edge,
+    mb: &MB,
+    eb: &MB::Edge,
+    fwd: &mut BTreeMap<oxidd::NodeID, oxidd::NodeID>,
+    bwd: &mut BTreeMap<oxidd::NodeID, oxidd::NodeID>,
+) -> Result<(), String>
+where
+    MA::InnerNode: HasLevel,
+    MB::InnerNode: HasLevel,
+    MA::Terminal: AsciiDisplay,
+    MB::Terminal: AsciiDisplay,
+{
+    if (ea.tag() != Default::default()) != (eb.tag() != Default::default()) {
+        return Err("complement marks differ".into());
+    }
+    match (fwd.get(&ea.node_id()), bwd.get(&eb.node_id())) {
+        (Some(b), Some(a)) if *b == eb.node_id() && *a == ea.node_id() => return Ok(()),
+        (None, None) => {}
+        _ => return Err("the sharing of nodes differs".into()),
+    }
+    fwd.insert(ea.node_id(), eb.node_id());
+    bwd.insert(eb.node_id(), ea.node_id());
+    match (ma.get_node(ea), mb.get_node(eb)) {
+        (Node::Terminal(x), Node::Terminal(y)) => {
+            use std::borrow::Borrow;
+            let (x, y) = (Asc::<MA::Terminal>(x.borrow()).to_string(), Asc::<MB::Terminal>(y.borrow()).to_string());
+            if x != y {
+                return Err(format!("terminal {y}, expected {x}"));
+            }
+        }
+        (Node::Inner(x), Node::Inner(y)) => {
+            let (vx, vy) = (ma.level_to_var(x.level()), mb.level_to_var(y.level()));
+            if vx != vy {
+                return Err(format!("a node of variable {vy}, expected variable {vx}"));
+            }
+            for (cx, cy) in x.children().zip(y.children()) {
+                iso_walk(ma, &cx, mb, &cy, fwd, bwd)?;
+            }
+        }
+        _ => return Err("a terminal in place of an inner node (or the other way round)".into()),
+    }
+    Ok(())
+}
+
 /// first difference between two snapshots; `all`: nodes only present in `after` count too
 fn snap_diff(before: &RcSnap, after: &RcSnap, all: bool) -> Option<(oxidd::NodeID, String)> {
     for (id, (l, rc)) in &before.nodes {
@@ -364,6 +469,15 @@ trait KindF: Function + Clone + PartialEq + 'static {
     fn tree(&self) -> String;
     fn supp_levels(mref: &Self::ManagerRef, roots: &[&Self]) -> Vec<u32>;
     fn sane(&self) -> Result<(), String>;
+    /// value under a full assignment (`a[v]` = variable `v`), if the kind has an `eval`
+    fn eval_at(&self, _a: &[bool]) -> Option<String> {
+        None
+    }
+    /// the structured view describes exactly the DAG below `roots` (no unfolding)
+    fn matches_sview(mref: &Self::ManagerRef, roots: &[&Self], sv: &SView) -> Result<(), String>;
+    /// `a[i]` and `b[i]` (possibly in different managers) are the same DAGs: same variables,
+    /// terminals and complement marks, same sharing
+    fn dag_iso(a: &[&Self], b: &[Self]) -> Result<(), String>;
     /// manager with a hard inner-node capacity (and terminal capacity where terminals are dynamic)
     fn new_mref_capped(inner: usize, terms: usize) -> Self::ManagerRef;
     fn make_capped(nvars: u32, l2v: &[u32], inner: usize, terms: usize) -> Option<Self::ManagerRef>;
@@ -409,7 +523,96 @@ fn parse_tt(spec: &str, nvars: u32) -> Option<Vec<bool>> {
     Some(bits)
 }
 
+/// Shape of the ladder over `n` levels, per level: (then-child `a` levels below, else-child `b`
+/// levels below or the constant false, else edge complemented). One node per level, so the
+/// exporter numbers the node at level `i` with `n - i + 1` (terminal: 1) and a child `k` levels
+/// below is `k` ids away. Going down, the else edges carry in turn the next relative id distance
+/// (`n/2 - 3`, `n/2 - 4`, .. 2: written as a distance because it is smaller than the child's id)
+/// and the next absolute child id (`(n+1)/2 - 2`, .. 2: written absolutely because the distance
+/// is not smaller), so every value occurs. Every 16th level (`i % 16 == phase`) is a node whose
+/// children both skip levels (then edge: the next scheduled value too), which gives variable codes
+/// other than "next variable" and then-ids other than "previous node"; the level above it points to
+/// both of its neighbours below, so the whole ladder hangs on the node at level 0.
+fn ladder_shape(n: usize, phase: usize) -> Vec<(usize, Option<usize>, bool)> {
+    const S: usize = 16;
+    let p = phase % S;
+    let skipper = |i: usize| i >= 2 && i % S == p && i + 5 <= n;
+    let mut rel = (n / 2).saturating_sub(3);
+    let mut abs = ((n + 1) / 2).saturating_sub(2);
+    let mut turn = false;
+    // the next scheduled child offset for a node at level `i`
+    let mut take = |i: usize| -> Option<usize> {
+        turn = !turn;
+        if turn {
+            rel = rel.min(((n - i) / 2).saturating_sub(1));
+            let k = rel;
+            (k >= 2 && i + k <= n - 1).then(|| {
+                rel -= 1;
+                k
+            })
+        } else {
+            abs = abs.min((n + 1 - i) / 2);
+            let v = abs;
+            (v >= 2 && n + 1 - v >= i + 2).then(|| {
+                abs -= 1;
+                n + 1 - v - i
+            })
+        }
+    };
+    let mut out = Vec::with_capacity(n);
+    for i in 0..n {
+        let mut ce = (i * 7 + phase) % 3 == 0;
+        if skipper(i + 1) {
+            out.push((1, Some(2), ce));
+        } else if skipper(i) {
+            // (the two scheduled values go to the two edges in alternating order, so that the then
+            // edge gets absolute ids and distances alike)
+            let (x, y) = (take(i), take(i));
+            let (a, b) = if (i / S) % 2 == 0 { (y.unwrap_or(2), x.unwrap_or(3)) } else { (x.unwrap_or(2), y.unwrap_or(3)) };
+            if a == b {
+                ce = true;
+            }
+            out.push((a, Some(b), ce));
+        } else {
+            out.push((1, take(i), ce));
+        }
+    }
+    out
+}
+
+/// `ladder=<phase>`: the ladder over all `nvars` levels (see `ladder_shape`)
+fn build_ladder<F: BooleanFunction>(mref: &F::ManagerRef, nvars: u32, phase: &str) -> Option<F> {
+    let phase: usize = phase.parse().ok()?;
+    let n = nvars as usize;
+    if n < 8 {
+        return None;
+    }
+    mref.with_manager_shared(|m| {
+        let fconst = F::f(m);
+        let shape = ladder_shape(n, phase);
+        let mut node: Vec<Option<F>> = (0..n).map(|_| None).collect();
+        node[n - 1] = Some(F::var(m, m.level_to_var(n as u32 - 1)).ok()?);
+        for i in (0..n - 1).rev() {
+            let x = F::var(m, m.level_to_var(i as u32)).ok()?;
+            let (a, b, ce) = shape[i];
+            let t = node[i + a].clone()?;
+            let e = match b {
+                Some(b) => {
+                    let e = node[i + b].clone()?;
+                    if ce { e.not().ok()? } else { e }
+                }
+                None => fconst.clone(),
+            };
+            node[i] = Some(x.ite(&t, &e).ok()?);
+        }
+        node[0].take()
+    })
+}
+
 fn build_bool<F: BooleanFunction>(mref: &F::ManagerRef, nvars: u32, spec: &str) -> Option<F> {
+    if let Some(p) = spec.strip_prefix("ladder=") {
+        return build_ladder::<F>(mref, nvars, p);
+    }
     let tt = parse_tt(spec, nvars)?;
     mref.with_manager_shared(|manager| {
         let vars: Vec<F> = (0..nvars).map(|v| F::var(manager, v).unwrap()).collect();
@@ -483,6 +686,38 @@ macro_rules! common_kind_fns {
                 }
             });
             Some(mref)
+        }
+        fn matches_sview(mref: &Self::ManagerRef, roots: &[&Self], sv: &SView) -> Result<(), String> {
+            mref.with_manager_shared(|manager| {
+                if roots.len() != sv.rootids.len() {
+                    return Err("number of roots".into());
+                }
+                let mut fwd = BTreeMap::new();
+                let mut used = BTreeSet::new();
+                for (r, &id) in roots.iter().zip(&sv.rootids) {
+                    sview_walk(manager, r.as_edge(manager), id, sv, &mut fwd, &mut used)?;
+                }
+                if used.len() != sv.terms.len() + sv.nodes.len() {
+                    return Err(format!("{} of {} listed nodes are reachable from the roots", used.len(), sv.terms.len() + sv.nodes.len()));
+                }
+                Ok(())
+            })
+        }
+        fn dag_iso(a: &[&Self], b: &[Self]) -> Result<(), String> {
+            if a.len() != b.len() {
+                return Err(format!("{} roots, expected {}", b.len(), a.len()));
+            }
+            let (Some(fa), Some(fb)) = (a.first(), b.first()) else { return Ok(()) };
+            fa.with_manager_shared(|ma, _| {
+                fb.with_manager_shared(|mb, _| {
+                    let mut fwd = BTreeMap::new();
+                    let mut bwd = BTreeMap::new();
+                    for (x, y) in a.iter().zip(b) {
+                        iso_walk(ma, x.as_edge(ma), mb, y.as_edge(mb), &mut fwd, &mut bwd)?;
+                    }
+                    Ok(())
+                })
+            })
         }
         fn snap(mref: &Self::ManagerRef) -> RcSnap {
             mref.with_manager_shared(|manager| rc_snap(manager))
@@ -574,6 +809,9 @@ macro_rules! bool_kind {
             }
             fn table(&self, nvars: u32) -> String {
                 table_bool(self, nvars)
+            }
+            fn eval_at(&self, a: &[bool]) -> Option<String> {
+                Some((self.eval(a.iter().enumerate().map(|(v, &b)| (v as u32, b))) as u8).to_string())
             }
             common_kind_fns!($rule);
             fn import(
@@ -1162,6 +1400,306 @@ fn mutate(file: &[u8], rng: &mut Rng, safe: bool) -> (Vec<u8>, String) {
 // ------------------------------------------------------------------------------------------------
 // steps on the real code, with the property-level oracles
 
+// ------------------------------------------------------------------------------------------------
+// the binary node section read by the harness (independent of the importer), and what the exported
+// files cover of the escape / 7-bit integer layer
+
+#[derive(Clone, Copy, PartialEq, Debug)]
+enum BCode {
+    Terminal,
+    Abs,
+    Rel,
+    Rel1,
+}
+
+/// one 7-bit integer of a node record: role (0 variable, 1 then, 2 else), code, value, logical bytes
+struct BinInt {
+    role: usize,
+    code: BCode,
+    value: usize,
+    bytes: Vec<u8>,
+}
+
+struct BinNode {
+    var: (BCode, usize),
+    t: (BCode, usize),
+    e_neg: bool,
+    e: (BCode, usize),
+}
+
+struct BinSection {
+    nodes: Vec<BinNode>,
+    ints: Vec<BinInt>,
+    /// logical (unescaped) bytes of the section
+    hist: [u64; 256],
+    node_codes: Vec<u8>,
+}
+
+/// DDDMP binary node records: every logical byte 0x00 / 0x0a / 0x0d / 0x1a is written as
+/// 0x00 followed by 0x00 / 0x01 / 0x02 / 0x03; integers are big-endian groups of 7 bits, the low
+/// bit of a byte says that another byte follows; node code = var<<5 | then<<3 | neg<<2 | else
+fn decode_bin_section(file: &[u8]) -> Result<BinSection, String> {
+    let (start, end) = nodes_region(file);
+    let b = &file[start..end];
+    let mut p = 0usize;
+    let mut hist = [0u64; 256];
+    let mut byte = |p: &mut usize| -> Result<u8, String> {
+        let c = *b.get(*p).ok_or("node section ends inside a record")?;
+        *p += 1;
+        let v = if c == 0 {
+            let d = *b.get(*p).ok_or("node section ends inside an escape sequence")?;
+            *p += 1;
+            match d {
+                0 => 0x00,
+                1 => 0x0a,
+                2 => 0x0d,
+                3 => 0x1a,
+                _ => return Err(format!("escape sequence 00 {d:02x} at offset {}", *p - 2)),
+            }
+        } else if matches!(c, 0x0a | 0x0d | 0x1a) {
+            return Err(format!("unescaped byte {c:02x} at offset {}", *p - 1));
+        } else {
+            c
+        };
+        hist[v as usize] += 1;
+        Ok(v)
+    };
+    let code = |c: u8| match c & 3 {
+        0 => BCode::Terminal,
+        1 => BCode::Abs,
+        2 => BCode::Rel,
+        _ => BCode::Rel1,
+    };
+    let mut nodes = Vec::new();
+    let mut ints = Vec::new();
+    let mut node_codes = Vec::new();
+    while p < b.len() {
+        let nc = byte(&mut p)?;
+        if nc & 0x80 != 0 {
+            return Err(format!("node code {nc:02x}"));
+        }
+        node_codes.push(nc);
+        let (vc, tc, neg, ec) = (code(nc >> 5), code(nc >> 3), nc & 4 != 0, code(nc));
+        let mut vals = [0usize; 3];
+        if vc != BCode::Terminal {
+            for (role, c) in [vc, tc, ec].into_iter().enumerate() {
+                if matches!(c, BCode::Abs | BCode::Rel) {
+                    let mut bytes = Vec::new();
+                    let mut v = 0usize;
+                    loop {
+                        let x = byte(&mut p)?;
+                        bytes.push(x);
+                        v = v.checked_mul(128).ok_or("integer too long")? | (x >> 1) as usize;
+                        if x & 1 == 0 {
+                            break;
+                        }
+                    }
+                    vals[role] = v;
+                    ints.push(BinInt { role, code: c, value: v, bytes });
+                }
+            }
+        }
+        nodes.push(BinNode { var: (vc, vals[0]), t: (tc, vals[1]), e_neg: neg, e: (ec, vals[2]) });
+    }
+    Ok(BinSection { nodes, ints, hist, node_codes })
+}
+
+/// the decoded records denote the node list `sv` (what the ASCII export of the same roots lists)
+fn bin_matches_sview(sec: &BinSection, sv: &SView) -> Result<(), String> {
+    let nterm = sv.terms.len();
+    if sec.nodes.len() != nterm + sv.nodes.len() {
+        return Err(format!("{} records, the diagram has {} nodes", sec.nodes.len(), nterm + sv.nodes.len()));
+    }
+    let levels: BTreeSet<u32> = sv.nodes.iter().map(|(l, _)| *l).collect();
+    let levels: Vec<u32> = levels.into_iter().collect();
+    let nsupp = levels.len();
+    // support index of every node number (terminals: number of support variables)
+    let var_of = |id: usize| -> usize {
+        match id.checked_sub(nterm + 1).and_then(|i| sv.nodes.get(i)) {
+            Some((l, _)) => levels.binary_search(l).unwrap_or(nsupp),
+            None => nsupp,
+        }
+    };
+    for (i, rec) in sec.nodes.iter().enumerate() {
+        let id = i + 1;
+        if i < nterm {
+            if rec.var.0 != BCode::Terminal {
+                return Err(format!("record {id} is not a terminal record"));
+            }
+            continue;
+        }
+        let (lvl, ch) = &sv.nodes[i - nterm];
+        if ch.len() != 2 {
+            return Err("arity".into());
+        }
+        let child = |c: (BCode, usize)| -> Option<usize> {
+            match c.0 {
+                BCode::Terminal => Some(1),
+                BCode::Abs => Some(c.1),
+                BCode::Rel => id.checked_sub(c.1),
+                BCode::Rel1 => Some(id - 1),
+            }
+        };
+        let (t, e) = (child(rec.t), child(rec.e));
+        let (wt, we) = (ch[0], ch[1]);
+        if t != Some(wt.unsigned_abs() as usize) || wt < 0 {
+            return Err(format!("record {id}: then child {t:?}, the diagram has {wt}"));
+        }
+        if e != Some(we.unsigned_abs() as usize) || rec.e_neg != (we < 0) {
+            return Err(format!("record {id}: else child {e:?} (complemented: {}), the diagram has {we}", rec.e_neg));
+        }
+        let minv = var_of(wt.unsigned_abs() as usize).min(var_of(we.unsigned_abs() as usize));
+        let v = match rec.var.0 {
+            BCode::Terminal => None,
+            BCode::Abs => Some(rec.var.1),
+            BCode::Rel => minv.checked_sub(rec.var.1),
+            BCode::Rel1 => minv.checked_sub(1),
+        };
+        let want = levels.binary_search(lvl).ok();
+        if v != want || v.is_none() {
+            return Err(format!("record {id}: variable {v:?}, the diagram has support variable {want:?}"));
+        }
+    }
+    Ok(())
+}
+
+/// what the binary exports of the current case reached
+#[derive(Default)]
+struct EscCov {
+    files: u64,
+    /// a node section could not be read or denotes another diagram (reported): no self-check
+    broken: bool,
+    hist: Vec<u64>,
+    /// position classes of the escaped bytes, e.g. `0d-first2`
+    pos: BTreeMap<String, u64>,
+    /// `var-abs`, `then-rel`, ...: (count, largest value)
+    roles: BTreeMap<String, (u64, usize)>,
+    /// values of child ids written absolutely / as a distance
+    abs_vals: BTreeSet<usize>,
+    rel_vals: BTreeSet<usize>,
+    max_len: usize,
+}
+
+thread_local! {
+    static ESC: std::cell::RefCell<EscCov> = std::cell::RefCell::new(EscCov::default());
+}
+
+/// classes every run of the `escape-coverage` case must reach (the feasible ones: 0x0d is odd, so
+/// it is never the last byte of an integer; 0x00 / 0x0a / 0x1a are even, so they are always the
+/// last byte; 0x0d as the first of three bytes needs child ids >= 98304, counted but not required)
+const ESC_REQUIRED: [&str; 11] =
+    ["00-nodecode", "00-last2", "00-last3", "0a-single", "0a-last2", "0a-last3", "1a-single", "1a-last2", "1a-last3", "0d-first2", "0d-mid3"];
+const ROLE_REQUIRED: [&str; 6] = ["var-abs", "var-rel", "then-abs", "then-rel", "else-abs", "else-rel"];
+
+fn esc_record(sec: &BinSection, ctx: &mut Ctx) {
+    ESC.with(|c| {
+        let mut c = c.borrow_mut();
+        c.files += 1;
+        if c.hist.is_empty() {
+            c.hist = vec![0; 256];
+        }
+        for (i, n) in sec.hist.iter().enumerate() {
+            c.hist[i] += n;
+        }
+        let mut hit = |c: &mut EscCov, k: String| {
+            ctx.count(&format!("esc-pos-{k}"));
+            *c.pos.entry(k).or_insert(0) += 1;
+        };
+        if sec.node_codes.contains(&0) {
+            hit(&mut c, "00-nodecode".into());
+        }
+        for x in &sec.ints {
+            let n = x.bytes.len();
+            c.max_len = c.max_len.max(n);
+            for (j, &b) in x.bytes.iter().enumerate() {
+                if matches!(b, 0x00 | 0x0a | 0x0d | 0x1a) {
+                    let w = if n == 1 {
+                        "single".to_string()
+                    } else if j == 0 {
+                        format!("first{}", n.min(4))
+                    } else if j + 1 == n {
+                        format!("last{}", n.min(4))
+                    } else {
+                        format!("mid{}", n.min(4))
+                    };
+                    hit(&mut c, format!("{b:02x}-{w}"));
+                }
+            }
+            let key = format!("{}-{}", ["var", "then", "else"][x.role], if x.code == BCode::Abs { "abs" } else { "rel" });
+            let e = c.roles.entry(key).or_insert((0, 0));
+            e.0 += 1;
+            e.1 = e.1.max(x.value);
+            if x.role != 0 {
+                if x.code == BCode::Abs {
+                    c.abs_vals.insert(x.value);
+                } else {
+                    c.rel_vals.insert(x.value);
+                }
+            }
+        }
+    });
+    ctx.add("esc-integers", sec.ints.len() as u64);
+}
+
+/// largest `n` such that every value `2..=n` is in the set
+fn dense_upto(s: &BTreeSet<usize>) -> usize {
+    let mut n = 1;
+    while s.contains(&(n + 1)) {
+        n += 1;
+    }
+    n
+}
+
+/// self-check of the `escape-coverage` case (`cov=1` on its last export; `cov=2`: also 0x0d as the
+/// first of three bytes): the generator still reaches every byte value and every feasible position
+/// of the escaped bytes
+fn esc_selfcheck(ctx: &mut Ctx, first3: bool) {
+    ESC.with(|c| {
+        let c = c.borrow();
+        if c.broken {
+            ctx.count("esc-selfcheck-skipped");
+            return;
+        }
+        let distinct = c.hist.iter().filter(|&&n| n > 0).count();
+        let mut put = |k: &str, v: u64| {
+            let e = ctx.stats.entry(k.into()).or_insert(0);
+            *e = (*e).max(v);
+        };
+        put("esc-cov-files", c.files);
+        put("esc-cov-distinct-byte-values", distinct as u64);
+        put("esc-cov-abs-id-dense-upto", dense_upto(&c.abs_vals) as u64);
+        put("esc-cov-rel-id-dense-upto", dense_upto(&c.rel_vals) as u64);
+        put("esc-cov-abs-id-distinct", c.abs_vals.len() as u64);
+        put("esc-cov-rel-id-distinct", c.rel_vals.len() as u64);
+        put("esc-cov-max-integer-bytes", c.max_len as u64);
+        for (k, (n, m)) in &c.roles {
+            put(&format!("esc-cov-{k}-count"), *n);
+            put(&format!("esc-cov-{k}-max"), *m as u64);
+        }
+        let mut missing: Vec<String> = Vec::new();
+        if distinct != 256 {
+            let m: Vec<String> = (0..256).filter(|&i| c.hist.get(i).copied().unwrap_or(0) == 0).map(|i| format!("{i:02x}")).collect();
+            missing.push(format!("byte values {}", m.join(",")));
+        }
+        for k in ESC_REQUIRED.into_iter().chain(first3.then_some("0d-first3")) {
+            if !c.pos.contains_key(k) {
+                missing.push(format!("escaped byte position {k}"));
+            }
+        }
+        for k in ROLE_REQUIRED {
+            if !c.roles.contains_key(k) {
+                missing.push(format!("integer class {k}"));
+            }
+        }
+        if !missing.is_empty() {
+            ctx.fail(
+                "escape-coverage-incomplete",
+                &format!("the binary exports of this case ({} files) no longer reach: {}", c.files, missing.join("; ")),
+            );
+        }
+    });
+}
+
 fn sanitized(n: &[u8]) -> Vec<u8> {
     n.iter().map(|&b| if is_ctl_or_space(b) { b'_' } else { b }).collect()
 }
@@ -1255,7 +1793,7 @@ trait DynWorld {
     fn info(&self) -> MgrInfo;
     fn sview_of(&self, specs: &[RootSpec]) -> Option<SView>;
     fn export_bytes(&self, st: &ExpSettings, specs: &[RootSpec], named: bool) -> Option<(Vec<u8>, bool)>;
-    fn export_step(&self, st: &ExpSettings, specs: &[RootSpec], named: bool, line_sv: Option<&SView>, ctx: &mut Ctx)
+    fn export_step(&self, st: &ExpSettings, specs: &[RootSpec], named: bool, line_sv: Option<&SView>, big: bool, ctx: &mut Ctx)
     -> String;
     fn truncall(&self, st: &ExpSettings, specs: &[RootSpec], ctx: &mut Ctx) -> String;
     fn fuzz(&self, st: &ExpSettings, specs: &[RootSpec], seed: u64, n: u64, ctx: &mut Ctx) -> String;
@@ -1369,6 +1907,55 @@ impl<F: KindF> World<F> {
                 base.1
             ),
         );
+    }
+
+    /// round trip of a big diagram without unfolding it: import(export(f)) == f as handles in the
+    /// same manager; in a fresh manager with the same order the imported DAG is isomorphic to the
+    /// exported one (variables, complement marks, sharing) and evaluates alike on sampled
+    /// assignments
+    fn export_oracles_big(&self, file: &[u8], roots: &[(&F, String)], reported_err: bool, ctx: &mut Ctx) {
+        let info = F::info(&self.mref);
+        let fs: Vec<&F> = roots.iter().map(|(f, _)| *f).collect();
+        let what = format!("export kind={} mode={} of a diagram over {} variables", F::KIND, if file_mode_is_ascii(file) { "ascii" } else { "binary" }, info.nvars);
+        if !F::CAN_IMPORT || reported_err {
+            return;
+        }
+        match import_into::<F>(&self.mref, file, true, false) {
+            ImpOut::Ok { roots: got, .. } => {
+                if got.len() != fs.len() || got.iter().zip(&fs).any(|(a, b)| a != *b) {
+                    ctx.fail("import-same-neq", &format!("{what}: importing into the same manager gives different handles"));
+                }
+                ctx.count("roundtrip-same-ok");
+            }
+            ImpOut::ImpPanic(m) | ImpOut::LoadPanic(m) => report_panic(ctx, &format!("{what} (same manager)"), &m),
+            o => ctx.fail("export-not-accepted", &format!("{what}: file written without error is not accepted ({})", o.token())),
+        }
+        let Some(fresh) = Mgr::<F>::new(info.nvars, &info.l2v, None) else { return };
+        match import_into::<F>(&fresh, file, true, true) {
+            ImpOut::Ok { roots: got, .. } => {
+                if let Err(e) = F::dag_iso(&fs, &got) {
+                    ctx.fail("import-fresh-differs", &format!("{what}: the diagram imported into a fresh manager differs: {e}"));
+                }
+                // evaluation samples (seeded by the file)
+                let mut rng = Rng::new(file.len() as u64 ^ 0x5eed);
+                let mut a = vec![false; info.nvars as usize];
+                'samples: for k in 0..48 {
+                    let dens = [2, 8, 14][k % 3];
+                    for x in a.iter_mut() {
+                        *x = rng.below(16) < dens;
+                    }
+                    for (f, g) in fs.iter().zip(&got) {
+                        if f.eval_at(&a) != g.eval_at(&a) {
+                            ctx.fail("import-fresh-differs", &format!("{what}: the function imported into a fresh manager evaluates differently (sample {k})"));
+                            break 'samples;
+                        }
+                    }
+                }
+                ctx.count("roundtrip-fresh-ok");
+            }
+            ImpOut::ImpPanic(m) | ImpOut::LoadPanic(m) => report_panic(ctx, &format!("{what} (fresh manager)"), &m),
+            o => ctx.fail("export-not-accepted", &format!("{what}: file written without error is not accepted by a fresh manager ({})", o.token())),
+        }
     }
 
     fn orig_trees(&self, specs: &[RootSpec]) -> Vec<String> {
@@ -1586,20 +2173,28 @@ impl<F: KindF> DynWorld for World<F> {
         let (f, r) = F::export(&self.mref, &roots, named, st);
         Some((f, r.is_err()))
     }
-    fn export_step(&self, st: &ExpSettings, specs: &[RootSpec], named: bool, line_sv: Option<&SView>, ctx: &mut Ctx) -> String {
+    fn export_step(&self, st: &ExpSettings, specs: &[RootSpec], named: bool, line_sv: Option<&SView>, big: bool, ctx: &mut Ctx) -> String {
         let Some(roots) = self.roots(specs) else { return "bad-op".into() };
         let Some((file, res)) = self.export_checked(&roots, named, st, ctx) else { return "panic".into() };
-        ctx.count(&format!("export-{}-{}", F::KIND, if file_mode_is_ascii(&file) { "ascii" } else { "binary" }));
+        let binary = !file_mode_is_ascii(&file);
+        ctx.count(&format!("export-{}-{}", F::KIND, if binary { "binary" } else { "ascii" }));
         self.export_drain_oracle(st, specs, named, ctx);
         // the structured view really describes the exported roots
-        match self.sview(specs) {
+        let sv = self.sview(specs);
+        match &sv {
             Some(sv) => {
                 let info = F::info(&self.mref);
-                if sview_trees(&sv, &info.l2v) != self.orig_trees(specs) {
+                if big {
+                    // (no unfolding: the diagrams of these lines are deep and heavily shared)
+                    let fs: Vec<&F> = roots.iter().map(|(f, _)| *f).collect();
+                    if let Err(e) = F::matches_sview(&self.mref, &fs, sv) {
+                        ctx.fail("export-struct-mismatch", &format!("the node list of the ASCII export is not the exported diagram: {e}"));
+                    }
+                } else if sview_trees(sv, &info.l2v) != self.orig_trees(specs) {
                     ctx.fail("export-struct-mismatch", "the node list of the ASCII export does not unfold to the exported functions");
                 }
                 if let Some(l) = line_sv {
-                    if *l != sv {
+                    if *l != *sv {
                         ctx.count("node-order-differs-from-generator");
                     }
                 }
@@ -1607,7 +2202,30 @@ impl<F: KindF> DynWorld for World<F> {
             }
             None => ctx.fail("export-struct-mismatch", "cannot parse the node section of the ASCII export"),
         }
-        self.export_oracles(st, specs, named, &file, res.is_err(), ctx);
+        // the binary node section, read by the harness's own decoder, is that node list
+        // (the known-finding file of a single-constant MTBDD has no terminal value to compare)
+        if binary && F::KIND == "bcdd" {
+            match decode_bin_section(&file) {
+                Ok(sec) => {
+                    esc_record(&sec, ctx);
+                    if let Some(sv) = &sv {
+                        if let Err(e) = bin_matches_sview(&sec, sv) {
+                            ESC.with(|c| c.borrow_mut().broken = true);
+                            report_limited(ctx, "binary-decode-mismatch", &format!("binary export of {} nodes: the node section does not denote the exported diagram: {e}", sec.nodes.len()));
+                        }
+                    }
+                }
+                Err(e) => {
+                    ESC.with(|c| c.borrow_mut().broken = true);
+                    report_limited(ctx, "binary-decode-mismatch", &format!("binary export: the node section is not well-formed: {e}"));
+                }
+            }
+        }
+        if big {
+            self.export_oracles_big(&file, &roots, res.is_err(), ctx);
+        } else {
+            self.export_oracles(st, specs, named, &file, res.is_err(), ctx);
+        }
         format!("{} {}", if res.is_err() { "err" } else { "ok" }, to_hex(&file))
     }
     fn truncall(&self, st: &ExpSettings, specs: &[RootSpec], ctx: &mut Ctx) -> String {
@@ -2290,6 +2908,7 @@ impl Scenario for Dddmp {
         self.world = None;
         bury();
         REPORTED.with(|r| r.borrow_mut().clear());
+        ESC.with(|c| *c.borrow_mut() = EscCov::default());
     }
     fn step(&mut self, line: &str, ctx: &mut Ctx) -> String {
         let ws = words(line);
@@ -2321,7 +2940,15 @@ impl Scenario for Dddmp {
                 };
                 let named = kv(&ws[1..], "named") == Some("1");
                 let sv = parse_line_sview(&ws[1..]);
-                w.export_step(&st, &roots, named, sv.as_ref(), ctx)
+                // `big=1`: oracles that do not unfold the diagram; `cov=1`: coverage self-check of the
+                // case's binary exports (both keys are ignored by the model)
+                let out = w.export_step(&st, &roots, named, sv.as_ref(), kv(&ws[1..], "big") == Some("1"), ctx);
+                match kv(&ws[1..], "cov") {
+                    Some("1") => esc_selfcheck(ctx, false),
+                    Some("2") => esc_selfcheck(ctx, true),
+                    _ => {}
+                }
+                out
             }
             "import" => {
                 let a = &ws[1..];
@@ -2519,6 +3146,8 @@ struct G<'a> {
     funcs: Vec<String>,
     /// only the known-finding case may export an MTBDD with a single terminal in binary mode
     allow_single_terminal_binary: bool,
+    /// appended to the next `export` lines (` big=1`, ` cov=1`)
+    export_keys: String,
 }
 
 impl G<'_> {
@@ -2534,6 +3163,7 @@ impl G<'_> {
         self.world = None;
         bury();
         self.funcs.clear();
+        self.export_keys.clear();
     }
     fn mgr(&mut self, kind: &str, nvars: u32, l2v: &[u32], names: Option<&[String]>) -> bool {
         let ns = match names {
@@ -2589,7 +3219,7 @@ impl G<'_> {
         };
         writeln!(
             self.w,
-            "export ascii={} ver={} strict={} dd={} named={} roots={roots} ; nterm={} termT={} terms={terms} nodes={nodes} rootids={}",
+            "export ascii={} ver={} strict={} dd={} named={} roots={roots} ; nterm={} termT={} terms={terms} nodes={nodes} rootids={}{}",
             st.ascii as u8,
             if st.v3 { 3 } else { 2 },
             st.strict as u8,
@@ -2597,7 +3227,8 @@ impl G<'_> {
             named as u8,
             info.nterm,
             (self.kind == "bcdd") as u8,
-            comma(&sv.rootids)
+            comma(&sv.rootids),
+            self.export_keys
         )
         .unwrap();
         w.export_bytes(st, specs, named)
@@ -2879,7 +3510,7 @@ fn crafted(g: &mut G) {
 
 fn generate(cfg: &GenCfg, rng: &mut Rng, w: &mut dyn Write) {
     let scale = cfg.scale.max(1);
-    let mut g = G { w, world: None, kind: String::new(), nvars: 0, l2v: Vec::new(), case_no: 0, funcs: Vec::new(), allow_single_terminal_binary: false };
+    let mut g = G { w, world: None, kind: String::new(), nvars: 0, l2v: Vec::new(), case_no: 0, funcs: Vec::new(), allow_single_terminal_binary: false, export_keys: String::new() };
     let nmut = if cfg.thorough { 30 } else { 10 };
     crafted(&mut g);
     // three variables, every order, sampled subsets of the 256 functions as roots, every setting
@@ -2979,12 +3610,49 @@ fn generate(cfg: &GenCfg, rng: &mut Rng, w: &mut dyn Write) {
             }
         }
     }
+    escape_coverage(cfg, rng, &mut g);
+}
+
+/// One case whose binary BCDD exports walk through the escape / 7-bit integer layer: random
+/// functions of 13..20 variables (2 000 .. 100 000 nodes: every byte value, two- and three-byte
+/// integers with each escaped byte in each position it can take) and ladders (one node per level:
+/// every id distance and every absolute child id up to half the number of levels, variable codes
+/// of every kind). The lines carry `big=1` (round-trip oracles that do not unfold the diagram), the
+/// last one `cov=1` (self-check: the case still reaches all of this).
+fn escape_coverage(cfg: &GenCfg, rng: &mut Rng, g: &mut G) {
+    g.case("escape-coverage");
+    let st = ExpSettings { ascii: false, v3: false, strict: true, dd: String::new() };
+    let sizes: &[u32] = if cfg.thorough { &[13, 14, 15, 16, 17, 19, 20] } else { &[13, 14, 16, 19] };
+    let ladders: &[(u32, u32)] = if cfg.thorough { &[(8000, 5), (40100, 3)] } else { &[(8000, 3)] };
+    for &nvars in sizes {
+        let mut order: Vec<u32> = (0..nvars).collect();
+        rng.shuffle(&mut order);
+        if !g.mgr("bcdd", nvars, &order, None) {
+            continue;
+        }
+        g.export_keys = " big=1".into();
+        let nf = if nvars <= 16 { 2 } else { 1 };
+        for i in 0..nf {
+            let bits: String = (0..(1usize << nvars) / 4).map(|_| char::from_digit(rng.below(16) as u32, 16).unwrap()).collect();
+            g.func(&format!("f{i}"), &format!("tt={bits}"));
+        }
+        let roots: Vec<RootSpec> = (0..nf).map(|i| RootSpec { func: format!("f{i}"), name: None }).collect();
+        g.export(&st, &roots, false);
+    }
+    for (k, &(n, phase)) in ladders.iter().enumerate() {
+        if !g.mgr("bcdd", n, &[], None) {
+            continue;
+        }
+        g.export_keys = if k + 1 == ladders.len() { " big=1 cov=1".into() } else { " big=1".into() };
+        g.func("l0", &format!("ladder={phase}"));
+        g.export(&ExpSettings { v3: k % 2 == 1, ..st.clone() }, &[RootSpec { func: "l0".into(), name: None }], false);
+    }
 }
 
 /// oracle-only stream: every truncation point and seeded mutations, evaluated at run time
 fn generate_fuzz(cfg: &GenCfg, rng: &mut Rng, w: &mut dyn Write) {
     let scale = cfg.scale.max(1);
-    let mut g = G { w, world: None, kind: String::new(), nvars: 0, l2v: Vec::new(), case_no: 0, funcs: Vec::new(), allow_single_terminal_binary: false };
+    let mut g = G { w, world: None, kind: String::new(), nvars: 0, l2v: Vec::new(), case_no: 0, funcs: Vec::new(), allow_single_terminal_binary: false, export_keys: String::new() };
     let ncases = if cfg.thorough { 12 } else { 3 } * scale;
     let nmut = if cfg.thorough { 400 } else { 150 };
     for kind in ["bdd", "bcdd", "zbdd", "mtbdd"] {
@@ -3031,7 +3699,7 @@ fn generate_fuzz(cfg: &GenCfg, rng: &mut Rng, w: &mut dyn Write) {
 /// (all five kinds, ASCII and binary) and imports under exhausted node / terminal capacity
 fn generate_oom(cfg: &GenCfg, rng: &mut Rng, w: &mut dyn Write) {
     let scale = cfg.scale.max(1);
-    let mut g = G { w, world: None, kind: String::new(), nvars: 0, l2v: Vec::new(), case_no: 0, funcs: Vec::new(), allow_single_terminal_binary: false };
+    let mut g = G { w, world: None, kind: String::new(), nvars: 0, l2v: Vec::new(), case_no: 0, funcs: Vec::new(), allow_single_terminal_binary: false, export_keys: String::new() };
     fn spec(fs: &[&str]) -> Vec<RootSpec> {
         fs.iter().map(|f| RootSpec { func: f.to_string(), name: None }).collect()
     }
@@ -3148,6 +3816,16 @@ fn generate_oom(cfg: &GenCfg, rng: &mut Rng, w: &mut dyn Write) {
             }
         }
     }
+    // --- a ladder over 230 000 levels in binary mode (oracle only: the model driver is quadratic in
+    // the number of support variables): every child id / id distance up to 114 997, i.e. also the
+    // three-byte integers whose first byte is 0x0d (98304..=114687); `cov=2`: self-check incl. those
+    g.case("oom-escape-ladder-230000");
+    if g.mgr("bcdd", 230_000, &[], None) {
+        g.export_keys = " big=1 cov=2".into();
+        g.func("l0", "ladder=7");
+        let st = ExpSettings { ascii: false, v3: false, strict: true, dd: String::new() };
+        g.export(&st, &[RootSpec { func: "l0".into(), name: None }], false);
+    }
     // --- TDD (export only): reference counts around exports with shared nodes
     for c in 0..ncases {
         let nvars = rng.range(2, 5) as u32;
@@ -3179,7 +3857,12 @@ pub fn main_with(fuzz: bool) {
         None if fuzz => generate_fuzz,
         None => generate,
     };
-    harness_main(generator, make)
+    // deep diagrams (ladders over tens of thousands of levels): the exporter and the harness's walks
+    // recurse once per level
+    let t = std::thread::Builder::new().stack_size(1 << 30).spawn(move || harness_main(generator, make)).expect("spawn");
+    if t.join().is_err() {
+        std::process::exit(101);
+    }
 }
 
 #[allow(dead_code)]
